@@ -114,9 +114,12 @@ type c18Node struct {
 
 type c18Fleet struct {
 	u            *c18Cluster
+	direct       bool // nsqadmin configured with nsqd addresses instead of nsqlookupd addresses
 	lookupds     []string
+	nsqds        []string
 	lfail        []bool
-	lookupFailed int
+	lookupFailed int // first stage (node discovery): upstreams that did not answer ...
+	stage1       int // ... out of this many
 	nodes        []*c18Node
 	asked        []*c18Node // the nodes nsqadmin learns about from the answering lookupds
 	knownBy      []int      // per node: number of answering lookupds that list it
@@ -161,8 +164,16 @@ func c18Shape(tag string, shape int, paused bool) []*c18TopicJSON {
 
 // lookupPath: the nsqlookupd endpoint the view reads its node list from; statsQuery: the
 // /stats query nsqadmin is expected to send to each nsqd.
-func c18NewFleet(lookupPath, statsQuery string) *c18Fleet {
-	f := &c18Fleet{u: c18NewCluster(), lookupds: []string{"l0:4161", "l1:4161"}}
+//
+// allowDirect: also the same fleet seen in direct-nsqd mode (no lookupd): the nodes
+// are discovered by asking each configured nsqd itself (/stats and /info); a node that does
+// not answer is the first-stage failure, a node without topic t is not a producer of t.
+func c18NewFleet(lookupPath, statsQuery string, allowDirect bool) *c18Fleet {
+	f := &c18Fleet{u: c18NewCluster(), lookupds: []string{"l0:4161", "l1:4161"}, stage1: 2}
+	if allowDirect && verifrt.Choice("direct-nsqd-mode", 2) == 1 {
+		f.direct = true
+		f.lookupds = nil
+	}
 	shapes := verifrt.Bound("shapes", 2, 4)
 	for i := 0; i < 2; i++ {
 		n := &c18Node{bcast: []string{"b0", "b1"}[i], host: []string{"hb", "ha"}[i]}
@@ -176,6 +187,30 @@ func c18NewFleet(lookupPath, statsQuery string) *c18Fleet {
 		f.nodes = append(f.nodes, n)
 	}
 	f.knownBy = make([]int, 2)
+	if f.direct {
+		discover := "/stats?format=json&include_clients=false"
+		if lookupPath != "/nodes" {
+			discover = "/stats?format=json&topic=t&include_clients=false"
+		}
+		for j, n := range f.nodes {
+			f.nsqds = append(f.nsqds, n.addr)
+			f.u.script("http://"+n.addr+"/info", false, 0, c18InfoReply{Version: "1.3.0", BroadcastAddress: n.bcast, Hostname: n.host, HTTPPort: 4151, TCPPort: 4150})
+			f.u.script("http://"+n.addr+discover, n.fail, 0, c18StatsReply{Version: "1.3.0", Health: "OK", Topics: n.topics})
+			if n.fail {
+				f.lookupFailed++
+				continue
+			}
+			hasT := false
+			for _, t := range n.topics {
+				hasT = hasT || t.TopicName == "t"
+			}
+			if lookupPath == "/nodes" || hasT {
+				f.knownBy[j] = 1
+				f.asked = append(f.asked, n)
+			}
+		}
+		return f
+	}
 	for i, l := range f.lookupds {
 		fail, k := c18Fail(l)
 		f.lfail = append(f.lfail, fail)
@@ -205,15 +240,25 @@ func c18NewFleet(lookupPath, statsQuery string) *c18Fleet {
 	return f
 }
 
-func (f *c18Fleet) server() *httpServer { return c18Server(f.u, f.lookupds, nil) }
+func (f *c18Fleet) server() *httpServer { return c18Server(f.u, f.lookupds, f.nsqds) }
 
 // status mapping of a view that first asks the lookupds for nodes and then every node for
 // its stats: 502 only when a whole stage got no answer.
 func (f *c18Fleet) status(what string, status int, message string) bool {
-	if f.lookupFailed == len(f.lookupds) {
+	if f.lookupFailed == f.stage1 {
 		verifrt.Assert(status == 502, what+":no-lookupd-answers-is-502")
-		verifrt.Reach(what+":no-lookupd-502", true)
+		verifrt.Reach(what+":no-lookupd-502", !f.direct)
 		return false
+	}
+	if len(f.asked) == 0 {
+		// every discovery upstream answered, and none names a node for the topic: there is no
+		// nsqd to ask. The statement leaves this corner open ("none answers" is vacuously true):
+		// an empty 200 view or a 502 are both accepted.
+		verifrt.Assert(status == 200 || status == 502, what+":topic-without-nodes-is-200-or-502")
+		if verifrt.Tier() == 1 {
+			verifrt.Reach(what+":topic-without-nodes", f.direct)
+		}
+		return status == 200
 	}
 	if f.statsFailed == len(f.asked) {
 		verifrt.Assert(status == 502, what+":no-nsqd-answers-is-502")
@@ -223,8 +268,9 @@ func (f *c18Fleet) status(what string, status int, message string) bool {
 	verifrt.Assert(status == 200, what+":some-upstream-answers-is-200")
 	if f.lookupFailed > 0 || f.statsFailed > 0 {
 		verifrt.Assert(message != "", what+":partial-view-carries-a-warning")
-		verifrt.Reach(what+":warning-for-failed-lookupd", status == 200 && f.lookupFailed > 0 && f.statsFailed == 0)
+		verifrt.Reach(what+":warning-for-failed-lookupd", status == 200 && f.lookupFailed > 0 && f.statsFailed == 0 && !f.direct)
 		verifrt.Reach(what+":warning-for-failed-nsqd", status == 200 && f.lookupFailed == 0 && f.statsFailed > 0)
+		verifrt.Reach(what+":direct-mode-warning", status == 200 && f.direct)
 	} else {
 		verifrt.Assert(message == "", what+":complete-view-carries-no-warning")
 	}
@@ -275,8 +321,8 @@ type c18TopicView struct {
 
 type c18ChanSum struct {
 	depth, backend, inflight, deferred, requeue, timeout, msgs int64
-	clientCount, clients, nodes                                 int
-	paused                                                      bool
+	clientCount, clients, nodes                                int
+	paused                                                     bool
 }
 
 // reference: sum of channel `channel` of topic `topic` over the answering asked nodes
@@ -323,7 +369,7 @@ func c18CheckChan(what string, c *c18ChanView, s c18ChanSum) {
 // GET /api/topics/t: the topic aggregated over the nsqd the lookupds name for it.
 func VerifC18_ViewTopic() {
 	verifrt.Atomic(func() {
-		f := c18NewFleet("/lookup?topic=t", "/stats?format=json&topic=t&include_clients=false")
+		f := c18NewFleet("/lookup?topic=t", "/stats?format=json&topic=t&include_clients=false", true)
 		s := f.server()
 		status, body, panicked := c18Get(s.topicHandler, "/api/topics/t", httprouter.Params{{Key: "topic", Value: "t"}})
 		verifrt.Assert(!panicked, "view-topic:handler-does-not-panic")
@@ -393,7 +439,7 @@ func VerifC18_ViewTopic() {
 // GET /api/topics/t/c: one channel aggregated over the nodes, with its clients.
 func VerifC18_ViewChannel() {
 	verifrt.Atomic(func() {
-		f := c18NewFleet("/lookup?topic=t", "/stats?format=json&topic=t&channel=c")
+		f := c18NewFleet("/lookup?topic=t", "/stats?format=json&topic=t&channel=c", true)
 		s := f.server()
 		status, body, panicked := c18Get(s.channelHandler, "/api/topics/t/c", httprouter.Params{{Key: "topic", Value: "t"}, {Key: "channel", Value: "c"}})
 		sum := f.chanSum("t", "c")
@@ -467,7 +513,7 @@ type c18CounterView struct {
 // GET /api/counter: one counter per (topic, channel, node), whose sum is the cluster total.
 func VerifC18_ViewCounter() {
 	verifrt.Atomic(func() {
-		f := c18NewFleet("/nodes", "/stats?format=json&include_clients=false")
+		f := c18NewFleet("/nodes", "/stats?format=json&include_clients=false", true)
 		s := f.server()
 		status, body, panicked := c18Get(s.counterHandler, "/api/counter", nil)
 		verifrt.Assert(!panicked, "view-counter:handler-does-not-panic")
@@ -516,7 +562,7 @@ type c18NodeView struct {
 // GET /api/nodes/b0:4151: one node's topics, with the node's message and client totals.
 func VerifC18_ViewNode() {
 	verifrt.Atomic(func() {
-		f := c18NewFleet("/nodes", "/stats?format=json")
+		f := c18NewFleet("/nodes", "/stats?format=json", true)
 		s := f.server()
 		which := verifrt.Choice("node", 2)
 		n := f.nodes[which]
@@ -524,7 +570,7 @@ func VerifC18_ViewNode() {
 		verifrt.Assert(!panicked, "view-node:handler-does-not-panic")
 		var v c18NodeView
 		verifrt.Assert(json.Unmarshal(body, &v) == nil, "view-node:body-is-json")
-		if f.lookupFailed == len(f.lookupds) {
+		if f.lookupFailed == f.stage1 {
 			verifrt.Assert(status == 502, "view-node:no-lookupd-answers-is-502")
 			return
 		}
@@ -588,7 +634,7 @@ func VerifC18_ViewNodes() {
 	verifrt.Atomic(func() {
 		var v c18NodesView
 		if verifrt.Choice("direct-nsqd-mode", 2) == 0 {
-			f := c18NewFleet("/nodes", "/stats?format=json")
+			f := c18NewFleet("/nodes", "/stats?format=json", false)
 			s := f.server()
 			status, body, panicked := c18Get(s.nodesHandler, "/api/nodes", nil)
 			verifrt.Assert(!panicked, "view-nodes:handler-does-not-panic")
